@@ -187,6 +187,21 @@ class Explorer:
         self.qtime += time.time() - t
         return r
 
+    NL_TIMEOUT_MS = 100
+
+    def _check_full(self, term):
+        if not self.NL_TIMEOUT_MS:
+            return z3.unknown
+        self.queries += 1
+        t = time.time()
+        s = z3.Solver()
+        s.set("timeout", self.NL_TIMEOUT_MS)
+        s.add(*self.pc)
+        s.add(term)
+        r = s.check()
+        self.qtime += time.time() - t
+        return r
+
     def decide(self, term):
         term = z3.simplify(term)
         if z3.is_true(term):
@@ -204,8 +219,17 @@ class Explorer:
             self.trace.append((d, True))
         else:
             if nonlinear(term):
+                # nonlinear branch: ask a full (nlsat) solver with a short budget; unknown => fork (sound)
                 self.blind += 1
-                d, forked = True, True
+                rt = self._check_full(term)
+                if rt == z3.unsat:
+                    d, forked = False, False
+                else:
+                    rf = self._check_full(z3.Not(term))
+                    if rf == z3.unsat:
+                        d, forked = True, False
+                    else:
+                        d, forked = True, True
             else:
                 rt = self._check(term)
                 if rt == z3.unsat:
